@@ -134,6 +134,7 @@ type c27Run struct {
 	guard3Hit       bool
 	relCount        int
 	inconclusive    string
+	deadlock        string // set by abandon: the actors are stuck for good
 	spawnerOfRunDir map[string]string
 }
 
@@ -798,6 +799,35 @@ func (r *c27Run) abandon() {
 		time.Sleep(2 * time.Millisecond)
 	}
 	daemon.VerifSetTimeouts(30*time.Second, time.Millisecond)
+	if time.Now().Before(deadline) {
+		return
+	}
+	// Every gate is open, every daemon has its termination signal, every client
+	// is being closed, and still some shell is inside Activate or some daemon
+	// has not exited. Slow, or stuck for good? Stuck = all goroutines of the
+	// daemon / rpc code wait on channels, locks or idle sockets, in the same
+	// place, in two dumps taken 3 s apart.
+	sig1, b1, _ := blockedGoroutines("src.elv.sh/pkg/daemon", "src.elv.sh/pkg/rpc")
+	time.Sleep(3 * time.Second)
+	sig2, b2, dump := blockedGoroutines("src.elv.sh/pkg/daemon", "src.elv.sh/pkg/rpc")
+	if b1 && b2 && sig1 == sig2 {
+		r.mu.Lock()
+		var stuck []string
+		for _, d := range r.daemons {
+			if d.state != c27Done {
+				stuck = append(stuck, d.name+" (daemon has not exited)")
+			}
+		}
+		for _, s := range r.shells {
+			if s.state != c27Idle {
+				stuck = append(stuck, s.name+" (shell has not returned from Activate / its store call)")
+			}
+		}
+		r.mu.Unlock()
+		if len(stuck) > 0 {
+			r.deadlock = fmt.Sprintf("%s: with every pause gate open, the termination signal sent to every daemon and every client closed, all goroutines of the daemon and rpc code are blocked in the same place 4 s and 7 s later\n%s", strings.Join(stuck, ", "), dump)
+		}
+	}
 }
 
 func c27TempDir() (string, error) {
@@ -810,7 +840,10 @@ func c27TempDir() (string, error) {
 }
 
 // c27Exec runs the schedule and returns the recorded history.
+var c27Deadlock string // result of the last c27Exec
+
 func c27Exec(c c27Case) (hist []c27Ev, guardHit bool, inconclusive string, err error) {
+	c27Deadlock = ""
 	if c.Shells < 1 || c.Shells > 3 {
 		return nil, false, "", fmt.Errorf("bad case: shells=%d", c.Shells)
 	}
@@ -895,6 +928,7 @@ func c27Exec(c c27Case) (hist []c27Ev, guardHit bool, inconclusive string, err e
 		r.inconclusive = "watchdog"
 	}
 	c27Guard3Hit = r.guard3Hit
+	c27Deadlock = r.deadlock
 	return hist, r.guardHit, r.inconclusive, nil
 }
 
@@ -1077,6 +1111,12 @@ func c27RunCase(c c27Case) c27Result {
 	}
 	if c27Guard3Hit {
 		vs.Excluded("a daemon's Listen was deferred while another daemon was between removing its socket and closing its listener (open finding " + c27KeyUnlink + ")")
+	}
+	if c27Deadlock != "" && (c.Only == 0 || c.Only == 1) {
+		_, notes := c27Eval(hist)
+		res.err = fmt.Errorf("C27 sentence 1 violated: activation / the daemon never ends: %s\nrecorded history (actor, step, file at the socket path after it):\n%s", c27Deadlock, c27HistText(hist, notes))
+		res.class = c.Init + "/deadlock"
+		return res
 	}
 	if inconclusive != "" {
 		vs.Excluded("inconclusive: " + inconclusive)
